@@ -1088,35 +1088,33 @@ def run(ctx):
     # 1. the design spec, exhaustively, against the property monitor
     mc = []
     if not ctx.replay:
-        if mode == "rewrite":
-            mc.append(ctx.tlc("LayoutFSMC", "C07_mc_quick.cfg", timeout=900,
-                              label="61 scenarios, crash at every point outside the marker rewrite window + retry"))
-            s4 = ctx.tlc("LayoutFSMC", "C07_mc_s4.cfg", allow_violation=True, timeout=900,
-                         label="populated layouts, crash inside the marker rewrite window (counterexample expected: S4)")
-            mc.append(s4)
-        else:
-            mc.append(ctx.tlc("LayoutFSMC", "C07_mc_fixed.cfg", timeout=900,
-                              label="61 scenarios, marker written only when missing/unreadable, crash anywhere + retry"))
-            s4 = None
-        rc_ = ctx.tlc("LayoutFSMC", "C07_mc_refcopyq%s.cfg" % ("" if mode == "rewrite" else "_fixed"),
-                      allow_violation=True, timeout=900,
+        # baseline of (D) = the code since 5457c02 (MarkerMode = ifbad): must hold with crashes anywhere
+        mc.append(ctx.tlc("LayoutFSMC", "C07_mc_quick.cfg", timeout=900,
+                          label="baseline (marker written only when missing/unreadable): 61 scenarios, crash anywhere + retry"))
+        rc_ = ctx.tlc("LayoutFSMC", "C07_mc_refcopyq.cfg", allow_violation=True, timeout=900,
                       label="image copy with referrers (counterexample expected: interrupted referrer copy not repaired)")
         mc.append(rc_)
+        # the as-found switch (MarkerMode = rewrite) with its expected counterexample: always in thorough, and in
+        # quick when this tree is observed to rewrite oci-layout in place (e.g. the fix reverted)
+        s4 = None
+        if thorough or mode == "rewrite":
+            s4 = ctx.tlc("LayoutFSMC", "C07_mc_asfound_s4.cfg", allow_violation=True, timeout=900,
+                         label="as-found switch: populated layouts, crash while oci-layout is truncated (counterexample expected: C07-1)")
+            mc.append(s4)
         if thorough:
-            mc.append(ctx.tlc("LayoutFSMC", "C07_mc_t2.cfg" if mode == "rewrite" else "C07_mc_t2_fixed.cfg", timeout=2400,
-                              label="as quick, the retry may be killed as well (two crashes)"))
-            sim = ctx.tlc("LayoutFSMC", "C07_sim_ix.cfg" if mode == "rewrite" else "C07_sim_ix_fixed.cfg", timeout=1200,
-                              workers=8, simulate="num=%d" % 200, depth=400, extra=["-seed", str(ctx.seed)],
-                              label="copy of a two-image index, one goroutine per blob: 1600 random behaviours (BFS does not finish)")
+            mc.append(ctx.tlc("LayoutFSMC", "C07_mc_t2.cfg", timeout=2400,
+                              label="baseline, the retry may be killed as well (two crashes)"))
+            sim = ctx.tlc("LayoutFSMC", "C07_sim_ix.cfg", timeout=1200,
+                          workers=8, simulate="num=%d" % 200, depth=400, extra=["-seed", str(ctx.seed)],
+                          label="baseline, copy of a two-image index, one goroutine per blob: 1600 random behaviours (BFS does not finish)")
             m = re.search(r"The number of states generated: (\d+)", sim["output"])
             if not m:
                 raise vlib.ToolError("simulation run printed no state count:\n" + sim["output"][-2000:])
             sim["generated"] = int(m.group(1))          # simulation mode has no distinct-state count
             ctx.tlc_runs[-1]["generated"] = sim["generated"]
             mc.append(sim)
-            if mode == "rewrite":
-                mc.append(ctx.tlc("LayoutFSMC", "C07_mc_fixed.cfg", timeout=900,
-                                  label="design of the proposed repair (findings/C07-1.patch): crash anywhere + retry"))
+            mc.append(ctx.tlc("LayoutFSMC", "C07_mc_asfound.cfg", timeout=900,
+                              label="as-found switch, crashes excluded from the truncation window: holds (the window was the only hazard)"))
     states = sum(r["distinct"] for r in mc)
     trans = sum(r["generated"] for r in mc)
     lap("TLC on the design spec (%d runs)" % len(mc))
@@ -1197,8 +1195,14 @@ def run(ctx):
     }
     if s4 is not None and not s4["violated"]:
         raise vlib.ToolError("LayoutFS with MarkerMode=rewrite and crashes in the marker window satisfies the property: "
-                             "the model does not contain the hazard it was written to expose")
-    for name, tl, real in (("marker rewrite window", s4 and s4["violated"], seen_s4), ("referrer copy", rc_["violated"], seen_rc)):
+                             "the as-found switch does not contain the hazard it was kept to expose")
+    # the referrer copy is part of the baseline; the marker window only concerns a tree observed to rewrite in place
+    checks = [("referrer copy", rc_["violated"], seen_rc)]
+    if mode == "rewrite":
+        checks.append(("marker rewrite window", s4["violated"], seen_s4))
+    elif seen_s4:
+        checks.append(("marker rewrite window", None, seen_s4))
+    for name, tl, real in checks:
         if bool(tl) != bool(real):
             vlib.log("C07: design spec and code disagree on '%s' (TLC: %s, real code: %s) - model drift, not a verdict"
                      % (name, tl, real))
@@ -1210,11 +1214,15 @@ def run(ctx):
     nbase = len(SCENARIOS)
     dts = [d for i, d in enumerate(dts)
            if not (d["header"]["kind"] in CONCURRENT and d["header"]["o"] == "IX") or (thorough and i < nbase)]
-    done, drift = validate_dtraces(ctx, dts, mode, "dtrace")
-    lap("TLC validation against (D)")
+    done, drift = validate_dtraces(ctx, dts, "ifbad", "dtrace")
     cov["design_traces_matched"] = len(done)
     cov["design_traces_total"] = len(dts)
     cov["drift"] = len(drift)
+    if drift and mode == "rewrite":
+        # this tree rewrites oci-layout in place: is its drift from the baseline what the as-found switch describes?
+        done2, _ = validate_dtraces(ctx, [d for d in dts if d["id"] in drift], "rewrite", "dtrace-asfound")
+        cov["drift_explained_by_as_found_model"] = len(done2)
+    lap("TLC validation against (D)")
     if drift:
         det = {}
         for sid, i in drift.items():
@@ -1225,7 +1233,7 @@ def run(ctx):
                  % (len(drift), json.dumps(det)[:1500]))
 
     # 6. binding demo
-    cov["binding_demos_rejected"] = binding_demo(ctx, traces, dts, done, mode)
+    cov["binding_demos_rejected"] = binding_demo(ctx, traces, dts, done, "ifbad")
     t0 = traces[0]
     cov["samples"] = [{"id": t0["id"], "scenario": t0["scenario"], "header": t0["header"], "events": t0["events"][:6]},
                       {"id": traces[-1]["id"], "scenario": traces[-1]["scenario"], "events": traces[-1]["events"][-3:]}]
@@ -1261,8 +1269,8 @@ def dtrace_of(ab, r):
 
 
 def marker_mode(runs):
-    """How does this tree write oci-layout? 'rewrite': truncating open of an existing marker (code as
-    it was found); 'ifbad': never rewritten while it is valid (the repair of findings/C07-1.patch)."""
+    """How does this tree write oci-layout? 'ifbad': never rewritten while it is valid (the code since
+    5457c02, baseline of (D)); 'rewrite': truncating open of an existing marker (as found before)."""
     for r in runs:
         for e in r.events:
             if e["call"] == "openat_trunc" and e["cls"] == "marker":
@@ -1285,7 +1293,8 @@ def validate_dtraces(ctx, dtraces, mode, label):
             for ev in t["events"]:
                 n += 1
                 f.write(json.dumps(ev, sort_keys=True) + "\n")
-    res = ctx.tlc("LayoutFSDTrace", "C07_dtrace_%s.cfg" % mode, workers=1, timeout=1500, record=False,
+    res = ctx.tlc("LayoutFSDTrace", "C07_dtrace.cfg" if mode == "ifbad" else "C07_dtrace_asfound.cfg", workers=1,
+                  timeout=1500, record=False,
                   env={"VERIF_TRACE": fn, "JAVA_TOOL_OPTIONS": "-Xss64m"})
     out = res["output"]
     done = set(re.findall(r'<<"DONE", "([^"]*)">>', out))
